@@ -77,7 +77,7 @@ MISSING_HDR = re.compile(r"ERROR: (\d+) missing file\(s\):")
 
 def parse_output(out):
     missing, mismatch, new = [], [], []
-    lines = out.splitlines()
+    lines = out.split("\n")
     i = 0
     while i < len(lines):
         ln = lines[i]
@@ -89,8 +89,9 @@ def parse_output(out):
                     missing.append(lines[i + j][2:] if lines[i + j].startswith("  ") else lines[i + j].strip())
             i += k
         elif "hash mismatch" in ln:
-            mm = re.search(r"hash mismatch\s+for (.*?)\s+(?:old )?(?:md5|sha1|xxh128|xxh3|xxh64|c4)[ :(]", ln)
-            mismatch.append(mm.group(1).strip() if mm else ln)
+            mm = (re.match(r"ERROR: hash mismatch        for (.*?) old (?:md5|sha1|xxh128|xxh3|xxh64|c4): ", ln, re.S)
+                  or re.match(r"ERROR: hash mismatch for        (.*?)  (?:md5|sha1|xxh128|xxh3|xxh64|c4) \(old\): ", ln, re.S))
+            mismatch.append(mm.group(1) if mm else ln)
         elif ln.startswith("found new file "):
             new.append(ln[len("found new file "):])
         i += 1
@@ -103,7 +104,7 @@ INFO_LINE = re.compile(r"^  Generation (\d+) \((.*?)\)(?: (\S+): (\S+) \((.*?)\)
 def parse_info(out, root):
     """-> list of ['H', relpath] | ['G', n] | ['F', relpath] | ['E', n, fmt, digest, action]"""
     res = []
-    for ln in out.splitlines():
+    for ln in out.split("\n"):
         if ln.startswith("Info with history at path: "):
             res.append(["H", rel(root, ln[len("Info with history at path: "):])])
         elif ln.startswith("Child History at "):
@@ -362,3 +363,156 @@ def tree_entries(tree, prefix=""):
         else:
             out.append((p, False, bytes.fromhex(node["f"])))
     return out
+
+
+# ------------------------------------------------------------------------------------------ model side
+
+
+def ptok(p):
+    """relative path string -> path token"""
+    return "." if p in ("", ".") else "/".join(core.tok(c) for c in p.split("/"))
+
+
+def unptok(t):
+    return "" if t == "." else "/".join(core.untok(c) for c in t.split("/"))
+
+
+def tree_tokens(tree):
+    out = ["D", str(len(tree))]
+    for name in tree:
+        node = tree[name]
+        out.append(core.tok(name))
+        if "d" in node:
+            out += tree_tokens(node["d"])
+        else:
+            out += ["F", node["f"] or "-"]
+    return out
+
+
+def lst(items, f=lambda x: x):
+    return [str(len(items))] + [f(x) for x in items]
+
+
+def step_line(st):
+    op = st["op"]
+    root = ptok(st.get("root", "") or "")
+    if op == "create":
+        ii = st.get("ii")
+        return " ".join(["create", root] + lst(st.get("fmts") or ["xxh128"]) + ["1" if st.get("n") else "0", "1" if st.get("dr") else "0"]
+                        + lst(st.get("sf") or [], ptok) + lst(st.get("i") or [], core.tok)
+                        + (["1"] + lst([l for l in ii], core.tok) if ii is not None else ["0"]))
+    if op == "verify":
+        return " ".join(["verify", root] + (["1", ptok(st["sf"])] if st.get("sf") is not None else ["0"]) + lst(st.get("i") or [], core.tok))
+    if op == "diff":
+        return " ".join(["diff", root] + lst(st.get("i") or [], core.tok))
+    if op in ("set", "add"):
+        return f"set {ptok(st['path'])} {st['data'] or '-'}"
+    if op == "mkdir":
+        return f"mkdir {ptok(st['path'])}"
+    if op == "delete":
+        return f"delete {ptok(st['path'])}"
+    if op == "rename":
+        return f"rename {ptok(st['path'])} {ptok(st['to'])}"
+    if op == "touch":
+        return f"touch {ptok(st['path'])}"
+    if op == "tamper":
+        return f"tamper {ptok(st['hist'])} {st['gen']}"
+    if op == "rmmanifest":
+        return f"rmmanifest {ptok(st['hist'])} {st['gen']}"
+    if op == "rmchain":
+        return f"rmchain {ptok(st['hist'])}"
+    return None
+
+
+_SPECS = {}
+
+
+def match_oracle(args):
+    """Q M <n> <pattern>*n <path>  ->  1 / 0, answered by pathspec itself"""
+    import pathspec
+
+    n = int(args[0])
+    pats = tuple(core.untok(a) for a in args[1 : 1 + n])
+    path = core.untok(args[1 + n])
+    spec = _SPECS.get(pats)
+    if spec is None:
+        spec = _SPECS[pats] = pathspec.PathSpec.from_lines("gitwildmatch", iter(pats))
+    return "1" if spec.match_file(path) else "0"
+
+
+def new_model():
+    return core.Model({"H": core.hash_oracle, "M": match_oracle})
+
+
+def _decode_gen(g):
+    return {
+        "hist": unptok(g["hist"]), "no": g["no"],
+        "records": [{"path": unptok(r["path"]), "dir": r["dir"], "size": r["size"],
+                     "entries": [[e[0], core.untok(e[1]), e[2], core.untok(e[3]) if e[3] is not None else None] for e in r["entries"]],
+                     "prev": unptok(r["prev"]) if r["prev"] is not None else None} for r in g["records"]],
+        "root": [[e[0], core.untok(e[1]), core.untok(e[2]) if e[2] is not None else None] for e in g["root"]] if g["root"] is not None else None,
+        "patterns": [core.untok(p) for p in g["patterns"]],
+        "refs": [[unptok(r[0]), r[1]] for r in g["refs"]],
+        "process": g["process"],
+    }
+
+
+def decode_obs(js):
+    o = json.loads(js)
+    return {
+        "outcome": o["outcome"],
+        "written": [_decode_gen(g) for g in o["written"]],
+        "missing": [unptok(p) for p in o["missing"]],
+        "mismatch": [unptok(p) for p in o["mismatch"]],
+        "new": [unptok(p) for p in o["new"]],
+        "ops": [[k, unptok(p)] for k, p in o["ops"]],
+        "info": [[x[0]] + [unptok(x[1]) if x[0] in ("H", "F") else x[1]] + ([x[2], core.untok(x[3]), x[4]] if x[0] == "E" else []) for x in o["info"]],
+    }
+
+
+def run_model(scn, model):
+    """-> list of observations (None for steps the model does not cover)"""
+    r = model.call("init " + " ".join(tree_tokens(scn["tree"])))
+    if r != "ok":
+        raise RuntimeError("model init failed: " + r)
+    out = []
+    for st in scn["steps"]:
+        line = step_line(st)
+        if line is None:
+            out.append(None)
+            continue
+        r = model.call(line)
+        if r.startswith("UNKNOWN") or r.startswith("EXC"):
+            out.append({"unsupported": r})
+            continue
+        o = decode_obs(r)
+        if st["op"] not in COMMANDS:
+            o = {"edit": st["op"]}
+        out.append(o)
+    return out
+
+
+def comparable(o, op):
+    """projects an implementation / model observation of a command onto what both sides state"""
+    if "edit" in o:
+        return {"edit": o["edit"]}
+    c = {"outcome": o["outcome"] if o["outcome"][0] == "exit" else ["abort"],
+         "written": sorted(({k: v for k, v in g.items() if k != "has_hashes"} for g in o["written"]), key=lambda g: g["hist"]),
+         "missing": sorted(o["missing"])}
+    if op in ("verify", "diff"):
+        c["mismatch"] = sorted(o["mismatch"])
+        c["new"] = sorted(o["new"])
+    if op in ("info", "infosf"):
+        c["info"] = o.get("info")
+    return c
+
+
+def first_difference(scn, impl_obs, model_obs):
+    """-> None or (step index, impl projection, model projection)"""
+    for i, (st, a, b) in enumerate(zip(scn["steps"], impl_obs, model_obs)):
+        if b is None or "unsupported" in b:
+            continue
+        ca, cb = comparable(a, st["op"]), comparable(b, st["op"])
+        if ca != cb:
+            return i, ca, cb
+    return None
